@@ -216,6 +216,8 @@ class Exec:
     def field_type(self, recv_ty, field):
         """declared type of recv.field given the static type of recv (a class qual or ClassInfo)"""
         cls = recv_ty if isinstance(recv_ty, ClassInfo) else None
+        if isinstance(recv_ty, str) and recv_ty in REG.fields:
+            return REG.fields[recv_ty].get(field)
         if cls is None and isinstance(recv_ty, str) and recv_ty.startswith('obj:'):
             try:
                 cls = self.repo.cls(recv_ty[4:])
@@ -307,7 +309,7 @@ class Exec:
                     fty = list(bytype)[0]
                     self.assume_allocated(st, t)
                     return Val(t, self.static_ty(fty))
-        if fty is not None:
+        if fty is not None and recv.elems != 'cast':
             st.assume(self.type_pred(fty, t, st))
         self.assume_allocated(st, t)
         return Val(t, self.static_ty(fty))
@@ -333,7 +335,7 @@ class Exec:
         o = self.symclass_owner(st, rv(recv.t), name)
         t = z3.Select(self.harr(st, 'f:' + name), o)
         fty = REG.fields.get('symclass', {}).get(name)
-        if fty is not None:
+        if fty is not None and recv.elems != 'cast':
             st.assume(self.type_pred(fty, t, st))
         self.assume_allocated(st, t)
         return Val(t, self.static_ty(fty))
@@ -743,6 +745,8 @@ class Exec:
         return self.binop(e.op, a, b, st, e)
 
     def binop(self, op, a, b, st, e):
+        if isinstance(op, ast.Add) and (a.ty == 'seq' or b.ty == 'seq'):
+            return Val(z3.Concat(self.seq_of(st, a), self.seq_of(st, b)), 'seq')
         if isinstance(op, ast.Mod) and (self.is_strlike(a) or (a.ty is None and z3v._is_app(a.t, V.s))):
             return self.str_format(a, b, st, e)
         if isinstance(op, ast.Add):
@@ -760,6 +764,13 @@ class Exec:
                 pb = self.type_pred(kind, b.t, st)
                 self.raise_if(st, z3.Not(z3.And(pa, pb)), 'TypeError', 'safe/type-concat', e)
                 return self.new_list(st, z3.Concat(self.seq_of(st, a), self.seq_of(st, b)), kind)
+        if isinstance(op, ast.Add) and a.ty is None and b.ty is None and not self.spec_mode:
+            # dynamic '+': str + str or int + int, anything else is a TypeError
+            both_s = z3.And(is_s(a.t), is_s(b.t))
+            both_i = z3.And(is_i(a.t), is_i(b.t))
+            if not z3.is_true(z3.simplify(both_i)):
+                self.raise_if(st, z3.Not(z3.Or(both_s, both_i)), 'TypeError', 'safe/type-add', e)
+                return Val(z3.If(both_s, mk_s(z3.Concat(sv(a.t), sv(b.t))), mk_i(iv(a.t) + iv(b.t))), None)
         if isinstance(op, (ast.Add, ast.Sub, ast.Mult, ast.FloorDiv, ast.Mod)):
             if isinstance(op, ast.Mult) and (self.is_strlike(a) or self.is_strlike(b)):
                 s_, n_ = (a, b) if self.is_strlike(a) else (b, a)
@@ -793,7 +804,7 @@ class Exec:
     def str_format(self, a, b, st, e):
         """'%..' % args: an uninterpreted total function of its arguments (DESIGN 3.3)"""
         args = [b]
-        if b.ty == 'tuple':
+        if b.ty in ('tuple', 'seq'):
             args = None
         f = z3.Function('str_format', z3.StringSort(), V, z3.StringSort())
         if args is None:
@@ -821,6 +832,8 @@ class Exec:
         return Val(mk_b(conj[0] if len(conj) == 1 else z3.And(*conj)), 'bool')
 
     def py_eq(self, a, b, st):
+        if a.ty == 'seq' or b.ty == 'seq':
+            return self.seq_of(st, a) == self.seq_of(st, b)
         if a.ty in ('list', 'tuple') and b.ty == a.ty:
             return z3.Or(a.t == b.t, self.seq_of(st, a) == self.seq_of(st, b))
         if self.spec_mode and (a.ty in ('list', 'tuple') or b.ty in ('list', 'tuple')):
@@ -904,10 +917,14 @@ class Exec:
     # ---- containers
     def e_List(self, e, st):
         vals = [self.ev(x, st) for x in e.elts]
+        if self.spec_mode:
+            return Val(self.seq_lit(vals), 'seq', elems=vals)     # a pure sequence value: specifications allocate nothing
         return self.new_list(st, self.seq_lit(vals), 'list')
 
     def e_Tuple(self, e, st):
         vals = [self.ev(x, st) for x in e.elts]
+        if self.spec_mode:
+            return Val(self.seq_lit(vals), 'seq', elems=vals)
         r = self.new_list(st, self.seq_lit(vals), 'tuple')
         r.elems = vals
         return r
